@@ -211,6 +211,7 @@ def run_c09(rep):
                          oracle_names=["oracle_c09"], known_classes=known_classes("C09"), label="c09")
     compile_tie(rep, "c09-compile", dict(hooks=0.95, join=0.5, conds=0.7))
     c09_sessions(rep, sizes(rep, 30, 400))
+    c09_swap_sessions(rep, sizes(rep, 60, 800))
 
 
 C09_STORY = (":: Start\n~ ticks = 0\n~ silent = 0\n@hook turn_end Status\n@hook turn_end Quiet\nBegin\n+ [status] -> Status\n+ [walk] -> Road\n\n"
@@ -265,6 +266,87 @@ def c09_sessions(rep, n_walks):
         n += 1
     rep.coverage.setdefault("families", {})["c09-sessions"] = {"walks": n}
     rep.coverage["evaluations"] = rep.coverage.get("evaluations", 0) + n
+
+
+C09_SWAP_STORY = (":: Start\n~ hu = 0\n~ fa = 0\n@hook turn_end Hunger\nBegin\n+ [wait] -> Hub\n\n"
+                  ":: Hub\nhub\n+ [swap] -> Swap\n+ [rehook] -> Rehook\n+ [drop] -> Drop\n+ [both] -> Both\n+ [wait] -> Hub\n\n"
+                  ":: Swap\n@unhook turn_end Hunger\n@hook turn_end Fatigue\nswapped\n+ [back] -> Hub\n\n"
+                  ":: Rehook\n@hook turn_end Hunger\nrehooked\n+ [back] -> Hub\n\n"
+                  ":: Drop\n@unhook turn_end Fatigue\ndropped\n+ [back] -> Hub\n\n"
+                  ":: Both\n@hook turn_end Fatigue\n@hook turn_end Hunger\n@hook turn_end Fatigue\nboth\n+ [back] -> Hub\n\n"
+                  ":: Hunger\n~ hu = hu + 1\n\n:: Fatigue\n~ fa = fa + 1\n")
+C09_EFFECT = {"Swap": [("-", "Hunger"), ("+", "Fatigue")], "Rehook": [("+", "Hunger")], "Drop": [("-", "Fatigue")],
+              "Both": [("+", "Fatigue"), ("+", "Hunger"), ("+", "Fatigue")], "Hub": [], "Start": [("+", "Hunger")]}
+
+
+def c09_swap_sessions(rep, n_walks):
+    """registrations replaced wholesale by undo / redo / load (same number of hooks, other members) and then changed again:
+    the list and the runs are followed by a ten-line reference of this one story (register = append unless present, unhook =
+    remove, a turn runs what is registered after the turn's own navigation, undo / redo / load put back what was there)"""
+    from common import rng_for as _rng
+    story = corr_play.compile_source(C09_SWAP_STORY)
+    done = 0
+    for w in range(n_walks):
+        r = _rng(rep.seed, "c09-swap", w)
+        rp = real_play.RealPlay(story)
+        st0, init = rp.start()
+        if st0 != "ok":
+            rep.violations.append({"cls": None, "family": "c09-swap", "what": f"session does not start: {init}", "source": C09_SWAP_STORY})
+            return
+        cur = {"hooks": ["Hunger"], "hu": 0, "fa": 0}
+        past, future, slots, ops, prev = [], [], [], [], init
+        for _ in range(r.randint(4, 18)):
+            kind = r.choice(["choose"] * 5 + ["undo", "undo", "redo", "save", "load", "load"])
+            if kind == "choose":
+                k = len(prev["out"]["choices"]) if prev.get("out") else 0
+                if not k:
+                    break
+                op = {"op": "choose", "i": r.randrange(k)}
+                tgt = prev["out"]["choices"][op["i"]]["target"]
+                past.append(dict(cur, hooks=list(cur["hooks"])))
+                past, future = past[-50:], []
+                cur = dict(cur, hooks=list(cur["hooks"]))
+                for sign, h in C09_EFFECT[tgt]:
+                    if sign == "+" and h not in cur["hooks"]:
+                        cur["hooks"].append(h)
+                    elif sign == "-" and h in cur["hooks"]:
+                        cur["hooks"].remove(h)
+                for h in list(cur["hooks"]):
+                    cur["hu" if h == "Hunger" else "fa"] += 1
+            elif kind == "undo":
+                op = {"op": "undo"}
+                if past:
+                    future.append(cur)
+                    cur = past.pop()
+            elif kind == "redo":
+                op = {"op": "redo"}
+                if future:
+                    past.append(cur)
+                    cur = future.pop()
+            elif kind == "save":
+                op = {"op": "save"}
+                slots.append(dict(cur, hooks=list(cur["hooks"])))
+            else:
+                if not slots:
+                    continue
+                op = {"op": "load", "slot": r.randrange(len(slots))}
+                # (loading re-enters the saved passage: its own @hook / @unhook lines run again - finding C05-F1 - which
+                # changes nothing here: every effect of this story is idempotent on the state it was saved in)
+                cur, past, future = dict(slots[op["slot"]], hooks=list(slots[op["slot"]]["hooks"])), [], []
+            ops.append(op)
+            step = rp.op(op)
+            st = step["state"]
+            got = {"hooks": st["hooks"].get("turn_end", []), "hu": st["vars"].get("hu"), "fa": st["vars"].get("fa")}
+            if "raise" in step["resp"] or got != cur:
+                rep.violations.append({"cls": None, "family": "c09-swap", "source": C09_SWAP_STORY, "ops": list(ops), "variant": "main",
+                                       "what": (f"after {op} the hooks registered for turn_end and the run counters are {got}"
+                                                + (f" (the call raised {str(step['resp'])[:100]})" if "raise" in step["resp"] else "")
+                                                + f"; registering appends unless present, unhooking removes, every turn runs what is registered: {cur}")})
+                break
+            prev = st
+        done += 1
+    rep.coverage.setdefault("families", {})["c09-swap"] = {"walks": done}
+    rep.coverage["evaluations"] = rep.coverage.get("evaluations", 0) + done
 
 
 C10_SESSIONS = [
@@ -595,7 +677,8 @@ PROPS = {
     ),
     "C07": dict(
         theorems=[T + "goto_scopes_balanced", T + "goto_frame", T + "step_scopes", T + "reachable_no_scope",
-                  T + "writeBack_skips", T + "bind_eq_pyCall", T + "validated_bind_never_missing", T + "pyCall_of_valid"],
+                  T + "writeBack_skips", T + "bind_eq_pyCall", T + "validated_bind_never_missing", T + "pyCall_of_valid",
+                  "Bardic.engine_split_agrees_with_compiler"],
         run=run_c07,
         rule="stories with parameterised passages (positional / keyword / defaults using earlier parameters / "
              "parameters shadowing globals) called from top-level choices, block choices, top-level and block jumps; "
@@ -755,7 +838,8 @@ PROPS = {
     "C12": dict(
         theorems=[T + "bind_eq_pyCall", T + "validated_bind_never_missing", T + "pyCall_of_valid", T + "renderPassage_in_graph", T + "tokenKinds_covered",
                   T + "wfAll_offered_target_exists", T + "wfAll_jump_target_exists", T + "compileStory_keys", T + "compileStory_initial",
-                  "Bardic.Parser.parseStory_wf", "Bardic.Parser.parseStory_choice_targets", "Bardic.Parser.coreLoop_keys"],
+                  "Bardic.Parser.parseStory_wf", "Bardic.Parser.parseStory_choice_targets", "Bardic.Parser.coreLoop_keys",
+                  "Bardic.engine_split_agrees_with_compiler", "Bardic.engine_split_of_extract", "Bardic.matchParenQ_spec", "Bardic.findCloseQ_matchParenQ"],
         run=run_c12,
         rule="every story the real compiler accepts among generated sources (45 % with one call site corrupted: unknown "
              "target, surplus / unknown / missing / duplicate argument, at top level or nested in a block) and the "
